@@ -129,6 +129,7 @@ impl Ctx {
             }
             return;
         }
+        VIOLATION_SEEN.store(true, Ordering::Relaxed);
         let n = self.n_violations.fetch_add(1, Ordering::Relaxed);
         if n + 1 >= 64 {
             self.stop.store(true, Ordering::Relaxed);
@@ -227,6 +228,18 @@ impl Ctx {
                 }
             }
         });
+    }
+}
+
+static VIOLATION_SEEN: AtomicBool = AtomicBool::new(false);
+
+/// A vacuity guard tripped. On a tree where violations were already reported the exploration may
+/// legitimately be degenerate (the run exits 1 anyway); otherwise it is a machinery failure.
+pub fn vacuous(msg: &str) {
+    if VIOLATION_SEEN.load(Ordering::Relaxed) {
+        println!("note: vacuity guard after violations: {msg}");
+    } else {
+        machinery(msg);
     }
 }
 
